@@ -113,6 +113,21 @@ pub fn gen_probe_spec(c: &mut Chooser, allow_dispose: bool) -> ProbeSpec {
 const ALL_MODES: &[Mode] = &[Mode::Listen, Mode::PullSync, Mode::PullDeferred];
 const ALL_FINS: &[Fin] = &[Fin::End, Fin::End, Fin::Err, Fin::Never];
 
+fn gen_node_no_share(c: &mut Chooser, depth: usize) -> Node {
+    fn strip(n: Node) -> Node {
+        match n {
+            Node::Share(x) => strip(*x),
+            Node::Un(u, x) => Node::Un(u, Box::new(strip(*x))),
+            Node::Merge(v) => Node::Merge(v.into_iter().map(strip).collect()),
+            Node::Concat(v) => Node::Concat(v.into_iter().map(strip).collect()),
+            Node::Combine2(a, b) => Node::Combine2(Box::new(strip(*a)), Box::new(strip(*b))),
+            Node::Flatten(v) => Node::Flatten(v.into_iter().map(strip).collect()),
+            Node::Leaf => Node::Leaf,
+        }
+    }
+    strip(gen_node(c, depth))
+}
+
 fn gen_node(c: &mut Chooser, depth: usize) -> Node {
     if depth == 0 {
         return Node::Leaf;
@@ -170,6 +185,7 @@ fn gen_node_pull(c: &mut Chooser, depth: usize, allow_take: bool) -> Node {
 /// Generate a case for operator `op` (one of ALL_OPS).
 pub fn gen_case(c: &mut Chooser, op: &str, prop: &str) -> CaseSpec {
     let credit = prop == "C14";
+    let indep = prop == "C13";
     let mut allow_late = false;
     let mut n_probes = 1;
     let topo = match op {
@@ -192,7 +208,9 @@ pub fn gen_case(c: &mut Chooser, op: &str, prop: &str) -> CaseSpec {
         "from_iter" => Topo::FromIter([Some(0), Some(1), Some(2), Some(3), Some(6), None][c.choose(6)]),
         _ => {
             let d = 1 + c.choose(3);
-            if credit {
+            if indep {
+                Topo::Tree(gen_node_no_share(c, d))
+            } else if credit {
                 Topo::Tree(gen_node_pull(c, d, true))
             } else {
                 Topo::Tree(gen_node(c, d))
@@ -202,7 +220,11 @@ pub fn gen_case(c: &mut Chooser, op: &str, prop: &str) -> CaseSpec {
     if credit {
         allow_late = false;
     }
+    if indep && !matches!(topo, Topo::Share(_) | Topo::ForEach) {
+        n_probes = 2;
+    }
     let n_puppets = match &topo {
+        Topo::ForEach if indep => 2,
         Topo::Unary(_) | Topo::Share(_) | Topo::ForEach => 1,
         Topo::Merge(n) | Topo::Concat(n) | Topo::Combine(n) => *n,
         Topo::Flatten(n) => 1 + n,
@@ -304,8 +326,13 @@ pub fn enabled(b: &Built, spec: &CaseSpec) -> Vec<(Act, u32)> {
             }
         }
     }
-    if b.probes.is_empty() && b.puppets.iter().all(|p| p.n_subs() == 0) && !b.subscribe.is_empty() {
-        v.push((Act::Subscribe(0), w[5]));
+    if b.probes.is_empty() {
+        // for_each: one application per source
+        for (i, p) in b.puppets.iter().enumerate() {
+            if p.n_subs() == 0 && i < b.subscribe.len() {
+                v.push((Act::Subscribe(i), w[5]));
+            }
+        }
     }
     for p in b.puppets.iter() {
         for k in 0..p.n_subs() {
@@ -389,6 +416,17 @@ pub fn run_case(spec: &CaseSpec, c: &mut Chooser, props: &oracles::Which) -> Cas
 /// `directed`: an explicit list of env steps (each is performed only if it is enabled at that
 /// point); used for the directed witnesses of known findings and for hand-written scenarios.
 pub fn run_case_with(spec: &CaseSpec, c: &mut Chooser, props: &oracles::Which, directed: Option<&[Act]>) -> CaseResult {
+    run_case_full(spec, c, props, directed, 0)
+}
+
+/// `first_sub`: which output subscription is made first (C13 replays one subscription alone)
+pub fn run_case_full(
+    spec: &CaseSpec,
+    c: &mut Chooser,
+    props: &oracles::Which,
+    directed: Option<&[Act]>,
+    first_sub: usize,
+) -> CaseResult {
     let b = build(&spec.topo, &spec.pspecs, &spec.lens, &spec.probe_specs);
     let mut steps = vec![];
     let mut crate_panic = None;
@@ -424,7 +462,7 @@ pub fn run_case_with(spec: &CaseSpec, c: &mut Chooser, props: &oracles::Which, d
     // probe 0 (or the for_each sink) subscribes first
     let mut ok = true;
     if !b.subscribe.is_empty() {
-        ok = do_step(Act::Subscribe(0), &mut steps, &mut st);
+        ok = do_step(Act::Subscribe(first_sub), &mut steps, &mut st);
     }
     let mut n = 0;
     if let Some(acts) = directed {
@@ -432,7 +470,7 @@ pub fn run_case_with(spec: &CaseSpec, c: &mut Chooser, props: &oracles::Which, d
             if !ok {
                 break;
             }
-            if *a == Act::Subscribe(0) {
+            if *a == Act::Subscribe(first_sub) {
                 continue;
             }
             if enabled(&b, spec).iter().any(|x| x.0 == *a) {
